@@ -548,6 +548,8 @@ func negativeFieldCasesLocal() []*Case {
 			"type In struct{ Name, Title string }\ntype Out struct{ Title string }\nfunc NewOut() *Out { return &Out{} }\n", "// goverter:converter\ntype Converter interface {\n\t// goverter:default NewOut\n\tConvertA(source In) *Out\n\t// goverter:map Name Title\n\tConvertB(source *In) *Out\n}\n"),
 		mk("overlap_unnamed", "field settings on the pointer variant of an unnamed struct pair while a sibling converts the structs inline",
 			"type W struct{ I struct{ Name, Title string } }\ntype WT struct{ I struct{ Title string } }\n", "// goverter:converter\ntype Converter interface {\n\tConvertA(source W) WT\n\t// goverter:map Name Title\n\tConvertB(source *struct{ Name, Title string }) *struct{ Title string }\n}\n"),
+		mk("delegate_with_automap", "autoMap on a method that delegates to an extend function of the same signature",
+			"type In struct{ A int; H Hold }\ntype Hold struct{ B string }\ntype Out struct{ A int; B string }\nfunc Ext(i In) Out { return Out{} }\n", "// goverter:converter\n// goverter:extend Ext\ntype Converter interface {\n\t// goverter:autoMap H\n\tConvert(source In) Out\n}\n"),
 		mk("settings_on_passthrough", "field settings on a method whose identical types are passed through by skipCopySameType",
 			"type T struct{ A int; B string }\n", "// goverter:converter\n// goverter:skipCopySameType\ntype Converter interface {\n\t// goverter:ignore B\n\tCopy(source T) T\n}\n"),
 		mk("overlap_automap", "autoMap on the pointer variant while the struct variant is what gets used",
